@@ -15,7 +15,7 @@ pub const DEF: PropDef = PropDef {
     run,
     replay,
     level: "exploration",
-    rule: "three generators: (a) boundary sweep - for every (handshake string, DH, message index) one probing call per case on a fresh session driven honestly to that message: writes with every output-buffer length at each field boundary -1/0/+1 and at 0/total/total+16/65535/65536/66000 and payload lengths around the maximum, reads of the genuine message truncated at every boundary +-1, of garbage of those lengths, with payload buffers 0/p-1/p/p+1, and oversize messages; (b) proptest op sequences over the whole public API (name strings incl. edited/non-ASCII/random, builder keys of length 0..=200, prologues up to 66000, psk locations 0..=255, reads/writes with arbitrary bytes and buffers 0..=66000, set_psk, getters, conversions at any time, transport/stateless ops with boundary nonces, rekeys, nonce setters); (c) arbitrary strings to the name parser. Oracle: no call unwinds (catch_unwind at the call boundary), every call returns Ok/Err and never a length larger than its output buffer. Non-trivial = a case that got past build and executed at least one read/write; distinct by full case value",
+    rule: "three generators: (a) boundary sweep - for every (handshake string, DH, message index) one probing call per case on a fresh session driven honestly to that message: writes with every output-buffer length at each field boundary -1/0/+1 and at 0/total/total+16/65535/65536/66000 and payload lengths around the maximum, reads of the genuine message truncated at every boundary +-1, of garbage of those lengths, with payload buffers 0/p-1/p/p+1, and oversize messages; (b) proptest op sequences over the whole public API (name strings incl. edited/non-ASCII/random, builder keys of length 0..=200, prologues up to 66000, psk locations 0..=255, reads/writes with arbitrary bytes and buffers 0..=66000, set_psk, getters, conversions at any time, transport/stateless ops with boundary nonces, rekeys, nonce setters); (c) arbitrary strings to the name parser, and names with 1..5000 modifiers / repeated tokens / every psk index 0..300; every name that parses is built bare AND with all keys and ten PSKs supplied (so that the build passes the prerequisite checks), then written and read once. Oracle: no call unwinds (catch_unwind at the call boundary), every call returns Ok/Err and never a length larger than its output buffer. Non-trivial = a case that got past build and executed at least one read/write; distinct by full case value",
     technique: "robustness fuzzing: exhaustive boundary sweep from reference-model field maps + proptest API op-sequence generation with shrinking (+ libFuzzer target api_ops in the thorough tier)",
     assumptions: &[
         "non-termination and process aborts are only observable as time-outs (exit 2), never decided",
@@ -317,7 +317,50 @@ fn parse_oracle(c: &ParseCase, acc: &mut Acc) -> CaseResult {
     if let Ok(p) = r {
         // building from any parsed value must not panic either
         let _ = call("Builder::build (bare)", || snow::Builder::new(p.clone()).build_initiator().is_ok())?;
-        let _ = call("Builder::build (bare)", || snow::Builder::new(p).build_responder().is_ok())?;
+        let _ = call("Builder::build (bare)", || snow::Builder::new(p.clone()).build_responder().is_ok())?;
+        // ... and with every key a pattern may ask for (so that the build gets past the
+        // prerequisite checks) and PSKs in all ten slots
+        let (sl, rl) = match p.dh {
+            snow::params::DHChoice::P256 => (32usize, 65usize),
+            _ => (32, 32),
+        };
+        let mut rs = vec![9u8; rl];
+        if rl == 65 {
+            rs = crate::refcrypto::dh_pub(crate::refcrypto::DhKind::P256, &[5u8; 32]).unwrap_or(rs);
+        }
+        for initiator in [true, false] {
+            let pp = p.clone();
+            let rs = rs.clone();
+            let _ = call("Builder::build (all keys)", move || {
+                let sk = vec![7u8; sl];
+                let psks: Vec<[u8; 32]> = (0..10u8).map(|n| [n; 32]).collect();
+                let mut b = snow::Builder::new(pp);
+                b = match b.local_private_key(&sk) {
+                    Ok(b) => b,
+                    Err(_) => return false,
+                };
+                b = match b.remote_public_key(&rs) {
+                    Ok(b) => b,
+                    Err(_) => return false,
+                };
+                for n in 0..10u8 {
+                    b = match b.psk(n, &psks[n as usize]) {
+                        Ok(b) => b,
+                        Err(_) => return false,
+                    };
+                }
+                let h = if initiator { b.build_initiator() } else { b.build_responder() };
+                match h {
+                    Ok(mut h) => {
+                        let mut buf = vec![0u8; 1024];
+                        let _ = h.write_message(b"x", &mut buf);
+                        let _ = h.read_message(&[0u8; 100], &mut buf);
+                        true
+                    },
+                    Err(_) => false,
+                }
+            })?;
+        }
     }
     acc.nontrivial(&c.s);
     Ok(())
@@ -410,6 +453,32 @@ pub fn run(ctx: &Ctx) {
         },
         parse_oracle,
     );
+    // long and repetitive names (hundreds of modifiers, repeated tokens)
+    {
+        let mut long = Vec::new();
+        for pat in ["NN", "XX", "IK", "X1X1", "N"] {
+            for k in [1usize, 2, 5, 10, 11, 38, 39, 40, 100, 255, 256, 257, 300, 1000, 5000] {
+                let asc: Vec<String> = (0..k).map(|n| format!("psk{}", n % 256)).collect();
+                let small: Vec<String> = (0..k).map(|n| format!("psk{}", n % 5)).collect();
+                let fb: Vec<String> = (0..k).map(|_| "fallback".to_string()).collect();
+                for m in [asc, small, fb] {
+                    long.push(ParseCase { s: format!("Noise_{pat}{}_25519_ChaChaPoly_SHA256", m.join("+")) });
+                    long.push(ParseCase { s: format!("Noise_{pat}{}_P256_AESGCM_BLAKE2b", m.concat()) });
+                }
+                long.push(ParseCase { s: format!("Noise_{pat}{}_25519_ChaChaPoly_SHA256", "psk".repeat(k)) });
+                long.push(ParseCase { s: format!("Noise_{pat}psk{}_25519_ChaChaPoly_SHA256", "9".repeat(k)) });
+                long.push(ParseCase { s: format!("Noise_{pat}psk{}1_25519_ChaChaPoly_SHA256", "0".repeat(k)) });
+                long.push(ParseCase { s: format!("Noise{}{pat}_25519_ChaChaPoly_SHA256", "_".repeat(k)) });
+                long.push(ParseCase { s: format!("Noise_{pat}_25519_ChaChaPoly_SHA256{}", "_x".repeat(k)) });
+                long.push(ParseCase { s: format!("Noise_{}_25519_ChaChaPoly_SHA256", pat.repeat(k)) });
+            }
+            for n in 0..=300u32 {
+                long.push(ParseCase { s: format!("Noise_{pat}psk{n}_25519_AESGCM_SHA512") });
+                long.push(ParseCase { s: format!("Noise_{pat}psk0+psk{n}_P256_AESGCM_SHA512") });
+            }
+        }
+        ctx.run_list("long_and_indexed_names", &long, false, parse_oracle);
+    }
     let probes: Vec<P256ScalarCase> = (0..3u8)
         .flat_map(|w| [(w, true, false), (w, false, false), (w, true, true)])
         .map(|(which, role_initiator, as_fixed_ephemeral)| P256ScalarCase { which, role_initiator, as_fixed_ephemeral })
@@ -421,7 +490,7 @@ pub fn replay(ctx: &Ctx, sub: &str, case: &serde_json::Value, origin: &str) -> b
     match sub {
         "boundary_sweep" => ctx.replay_case::<SweepCase, _>(sub, case, sweep_oracle, origin),
         "transport_sweep" | "dense_lengths_both_backends" => ctx.replay_case::<TSweepCase, _>(sub, case, tsweep_oracle, origin),
-        "parse_strings" => ctx.replay_case::<ParseCase, _>(sub, case, parse_oracle, origin),
+        "parse_strings" | "long_and_indexed_names" => ctx.replay_case::<ParseCase, _>(sub, case, parse_oracle, origin),
         "known_p256_invalid_scalar" => ctx.replay_case::<P256ScalarCase, _>(sub, case, p256_scalar_oracle, origin),
         "fuzz_bytes" => {
             let bytes: Vec<u8> = serde_json::from_value(case.clone()).unwrap_or_default();
